@@ -4,8 +4,9 @@
 
     [y_set_hash_iff_diff]: with report_repetition off, for every hasher that is injective with separator-free,
     lower-case-stable tokens: the stand-alone hashes of two sets are equal exactly when _diff_set reports
-    nothing - PROVIDED truncate_datetime is off or the sets hold no datetime / time ([trunc_free]): that is
-    the one place where the two engines hash a set member differently (the DeepHash calls inside DeepDiff do
+    nothing - PROVIDED truncate_datetime does not MOVE any member ([trunc_free]: every datetime / time member is
+    already on the unit boundary, or the option is off): that is the one place where the two engines hash a set
+    member differently (the DeepHash calls inside DeepDiff do
     not receive truncate_datetime: finding C12-truncate-not-forwarded, witness
     HashDiffYWitness.y_truncate_not_forwarded_refuted).  The guard is exact in that sense: it is the
     syntactic condition under which the member texts of the two engines coincide ([yh_text_hatomF]). *)
@@ -57,22 +58,45 @@ Proof.
 Qed.
 
 (* ---- the member texts of the two engines ---- *)
+(* truncate_datetime MOVES a member: a datetime / time whose wall clock is not on the unit boundary *)
+Definition trunc_moves (F : opts) (a : atom) : bool :=
+  match a with
+  | ADt us _ | ATime us => negb (Z.eqb (dt_trunc (o_trunc F) us) us)
+  | _ => false
+  end.
+Definition trunc_free (F : opts) (xs : list atom) : bool := forallb (fun a => negb (trunc_moves F a)) xs.
+(* the guard of round-3 wave 2a: truncation off, or no datetime / time member at all *)
 Definition dt_like (a : atom) : bool := match a with ADt _ _ | ATime _ => true | _ => false end.
-Definition trunc_free (F : opts) (xs : list atom) : bool :=
+Definition trunc_free_coarse (F : opts) (xs : list atom) : bool :=
   match o_trunc F with None => true | Some _ => forallb (fun a => negb (dt_like a)) xs end.
 
-Lemma yh_text_hatomF F a : (o_trunc F = None \/ dt_like a = false) -> yh_text F a = hatomF F a.
+Lemma trunc_moves_coarse F a : (o_trunc F = None \/ dt_like a = false) -> trunc_moves F a = false.
 Proof.
-  intros G. destruct a; try reflexivity.
-  - (* datetime *) destruct G as [G|G]; [|discriminate]. cbn [yh_text yh0 hatomF hatom0]. unfold ydt_text, dt_text. rewrite G. reflexivity.
-  - (* time *) destruct G as [G|G]; [|discriminate]. cbn [yh_text yh0 hatomF hatom0]. rewrite G. reflexivity.
-  - (* Enum member *) cbn [yh_text hatomF]. destruct (o_enum F); [|reflexivity]. destruct v; reflexivity.
+  intros [G|G]; destruct a; try reflexivity; try discriminate; cbn [trunc_moves]; rewrite G; cbn [dt_trunc]; rewrite Z.eqb_refl; reflexivity.
+Qed.
+Lemma trunc_free_weaker F xs : trunc_free_coarse F xs = true -> trunc_free F xs = true.
+Proof.
+  unfold trunc_free_coarse, trunc_free. intros G. apply forallb_forall. intros a Ha. apply negb_true_iff.
+  apply trunc_moves_coarse. destruct (o_trunc F); [|left; reflexivity]. right.
+  rewrite forallb_forall in G. apply negb_true_iff. apply G. exact Ha.
 Qed.
 
-Lemma trunc_free_In F xs a : trunc_free F xs = true -> In a xs -> o_trunc F = None \/ dt_like a = false.
+(* EXACTLY when truncation does not move the member do the two engines hand the same text to the hasher *)
+Lemma yh_text_hatomF F a : trunc_moves F a = false -> yh_text F a = hatomF F a.
 Proof.
-  unfold trunc_free. destruct (o_trunc F); [|auto]. intros G Ha. right.
-  rewrite forallb_forall in G. apply negb_true_iff. apply G. exact Ha.
+  intros G. destruct a; try reflexivity.
+  - cbn [trunc_moves] in G. apply negb_false_iff, Z.eqb_eq in G.
+    cbn [yh_text yh0 hatomF hatom0]. unfold ydt_text, dt_text, dt_instant. cbn [dt_us dt_off dt_trunc]. rewrite G. reflexivity.
+  - cbn [trunc_moves] in G. apply negb_false_iff, Z.eqb_eq in G.
+    cbn [yh_text yh0 hatomF hatom0]. rewrite G. reflexivity.
+  - cbn [yh_text hatomF]. destruct (o_enum F); [|reflexivity]. destruct v; reflexivity.
+Qed.
+Lemma p_of_Z_inj' z z' : p_of_Z z = p_of_Z z' -> z = z'.
+Proof. apply p_of_Z_inj. Qed.
+
+Lemma trunc_free_In F xs a : trunc_free F xs = true -> In a xs -> trunc_moves F a = false.
+Proof.
+  unfold trunc_free. intros G Ha. rewrite forallb_forall in G. apply negb_true_iff. apply G. exact Ha.
 Qed.
 
 Section Sets.
@@ -254,5 +278,6 @@ Proof. vm_compute. repeat split; reflexivity. Qed.
 Example set_guard_satisfiable :
   trunc_free Yenum [E_A; ADt t_10_20_30 None] = true /\
   obs Yenum false (VSet [E_A; ADt t_10_20_30 None]) (VSet [ADt t_10_20_30 None; AInt 1]) = (Some true, YEmpty) /\
-  trunc_free (Ytrunc UMinute) [ADt t_10_20_01 None] = false.
+  trunc_free (Ytrunc UMinute) [ADt t_10_20_01 None] = false /\
+  trunc_free (Ytrunc UMinute) [ADt (t_10_20_01 - 1000000) None] = true /\ trunc_free_coarse (Ytrunc UMinute) [ADt (t_10_20_01 - 1000000) None] = false.
 Proof. vm_compute. repeat split; reflexivity. Qed.
